@@ -8,7 +8,7 @@ C19 driver (`xvdriver extgate`): one case line in, one canonical observation lin
       resources  key=content;key=content          content:
                    D(doctype|body)   T(dtditems)   E(body)   S(doctype|tns|xsitems|body)   U
                    doctype   -  |  sys^pub^dtditems     (sys = ~ : no external subset)
-                   dtditems  g:name:sys:pub , p:name:sys:pub , r:name          ("-" = none)
+                   dtditems  g:name:sys:pub , p:name:sys:pub , r:name , q:name:hex(dtditems)   ("-" = none; q = internal PE)
                    body      e:name , l:ns>loc>ns>loc , n:loc
                    xsitems   i:ns:loc , c:loc , d:loc
     -> O:<main> R:<type>|<systemId>|<baseURI>|<publicId>|<namespace> O:<path> N:<url> … = ok | fatal:<why>
@@ -146,15 +146,19 @@ def parseCfg (s : String) : Option Cfg :=
     | ["res", v] => (match v with | "none" => some ResolverKind.none | "xml" => some .xml | "sax" => some .sax | _ => none).map
         (fun x => { c with resolver := x })
     | ["api", _] => some c
+    | ["sp", _] => some c      -- position of the scanner switch in the configuration history: the effective policy is the
+    | ["pre", _] => some c     -- last value set, whatever the switches (XV.Props.C19.policy_survives_scanner_switch)
+    | ["sm", _] => some c
     | _ => none) ({} : Cfg)
 
-def parseDtdItems (s : String) : Option (List DtdItem) :=
+partial def parseDtdItems (s : String) : Option (List DtdItem) :=
   if s == "-" then some [] else
   (s.splitOn ",").mapM (fun it =>
     match it.splitOn ":" with
     | ["g", n, sy, p] => do some (.declGE (← unhex n) (← unhex sy) (← unhex p))
     | ["p", n, sy, p] => do some (.declPE (← unhex n) (← unhex sy) (← unhex p))
     | ["r", n] => do some (.refPE (← unhex n))
+    | ["q", n, inner] => do some (.declIntPE (← unhex n) (← parseDtdItems (← unhex inner)))   -- inner = hex of an encoded item list
     | _ => none)
 
 def parsePairs : List String → Option (List (String × String))
